@@ -113,8 +113,71 @@ def z3_to_py(v):
     return str(v)
 
 
-def discharge(axioms, o, want_model=True):
+def _symbols(f, memo):
+    """names of the uninterpreted constants / functions occurring in f"""
+    key = f.get_id()
+    if key in memo: return memo[key]
+    out = set(); seen = set(); todo = [f]
+    while todo:
+        x = todo.pop()
+        if x.get_id() in seen: continue
+        seen.add(x.get_id())
+        if z3.is_quantifier(x): todo.append(x.body()); continue
+        if z3.is_app(x):
+            if x.decl().kind() == z3.Z3_OP_UNINTERPRETED: out.add(x.decl().name())
+            todo += x.children()
+    memo[key] = out
+    return out
+
+
+def relevant_axioms(axioms, seeds):
+    """cone of influence: the axioms connected to the query through shared uninterpreted symbols. Dropping hypotheses can only lose proofs, never
+    create one, so 'unsat' on the reduced set is a proof; every other answer is re-asked with all axioms."""
+    memo = {}
+    cur = set()
+    for f in seeds: cur |= _symbols(f, memo)
+    rest = [(a, _symbols(a, memo)) for a in axioms]
+    keep = []
+    changed = True
+    while changed:
+        changed = False
+        nxt = []
+        for a, sy in rest:
+            if not sy or (sy & cur):
+                keep.append(a); cur |= sy; changed = True
+            else: nxt.append((a, sy))
+        rest = nxt
+    return keep
+
+
+def _split_attempt(axioms, o):
+    """conjunct by conjunct, each against the cone of influence of the whole query -- small queries are the stable ones. True = all proved."""
+    try:
+        rel = relevant_axioms(axioms, list(o.pc) + [o.goal])
+        conjs = []
+
+        def flat(g):
+            if z3.is_and(g):
+                for c in g.children(): flat(c)
+            else: conjs.append(g)
+        flat(o.goal)
+        if len(rel) == len(axioms) and len(conjs) <= 1: return False
+        for g in conjs:
+            s0 = z3.Solver(); s0.set('timeout', Z3_TIMEOUT_MS // 2)
+            for a in rel: s0.add(a)
+            for p in o.pc: s0.add(p)
+            s0.add(z3.Not(g))
+            for inst in mem_instances(list(rel) + list(o.pc) + [z3.Not(g)]): s0.add(inst)
+            if s0.check() != z3.unsat: return False
+        return True
+    except Exception:
+        return False
+
+
+def discharge(axioms, o, want_model=True, split_first=False):
     """returns (verdict, backend, seconds, model|None, reason)"""
+    t0 = time.time()
+    if split_first and _split_attempt(axioms, o): return 'discharged', 'z3', time.time() - t0, None, ''
     s = z3.Solver(); s.set('timeout', Z3_TIMEOUT_MS)
     for a in axioms: s.add(a)
     for p in o.pc: s.add(p)
@@ -124,6 +187,10 @@ def discharge(axioms, o, want_model=True):
     if r == z3.unsat: return 'discharged', 'z3', dt, None, ''
     if r == z3.sat: return 'refuted', 'z3', dt, s.model(), ''
     reason = s.reason_unknown()
+    if not split_first:
+        t1 = time.time()
+        if _split_attempt(axioms, o): return 'discharged', 'z3', dt + time.time() - t1, None, ''
+        dt += time.time() - t1
     # second attempt: skolemise the goal conjunct by conjunct and instantiate quantified hypotheses at the ground sequence indices
     try:
         import itertools as _it
@@ -247,7 +314,7 @@ def verify_one(key):
         if rec['reachable_paths'] == 0 and rec['status'] == 'ok':
             rec['status'] = 'vacuous'; rec['reason'] = 'no exit of the function is reachable under the contract'
         for o in obls:
-            verdict, backend, dt, model, reason = discharge(axioms, o)
+            verdict, backend, dt, model, reason = discharge(axioms, o, split_first=bool(cx.d.get('split_first')))
             rec['solver_s'] += dt
             orec = dict(name=o.name, kind=o.kind, line=o.line, verdict=verdict, backend=backend, s=round(dt, 3))
             if verdict == 'refuted':
